@@ -146,14 +146,15 @@ def explore(run):
             feats = {}
             if rng.random() < 0.12:
                 feats = {"browse_colon": True, "attr_overflow": True}
-            g = D.gen_graph(rng, hostile=hostile, closed=False, features=feats)
+            feats = dict(feats, repeat_nodes=rng.random() < 0.2, many_ns=rng.random() < 0.08)
+            g = D.gen_graph(rng, hostile=hostile, closed=False, features=feats, n_nodes=2 if feats["many_ns"] else None)
             for n_ in g["nodes"].values():        # null Booleans belong to C08 (finding D-C08e)
                 v = n_["value"]
                 if v and (v["t"] == "Boolean" and v["v"] is None or v["t"] == "ListOf" and v["typename"] == "Boolean"):
                     n_["value"] = None
             files = D.serialise(rng, g, one_file=rng.random() < 0.2)
             run.case({"set": i, "nodes": len(g["nodes"]), "files": len(files)}, nontrivial=bool(g["nodes"]),
-                     tag="set:%s:%s" % ("hostile" if hostile else "plain", "feat" if feats else "supported"))
+                     tag="set:%s:%s" % ("hostile" if hostile else "plain", "feat" if feats.get("browse_colon") else "supported"))
             for k_ in g["nodes"].values():
                 run.count("cls:" + k_["cls"])
             PC.check_set(run, sc, g, files, None, ["nodes"], "s%d" % i, known=known)
